@@ -91,6 +91,9 @@ func genC13(t *rapid.T) C13Case {
 				c.Ops = append(c.Ops, C13Op{Op: "dup-race", Name: name, Desc: genUTF8(t, "racedesc", 20)})
 				continue
 			}
+			if rapid.IntRange(0, 3).Draw(t, "badlisten") == 0 {
+				c.Ops = append(c.Ops, C13Op{Op: "bad-listen", Name: rapid.SampledFrom([]string{"no-protocol", "bogus:x", "unix:", "", ":"}).Draw(t, "badaddr")})
+			}
 			c.Ops = append(c.Ops, C13Op{Op: "listen", Unix: rapid.IntRange(0, 3).Draw(t, "unix") == 0})
 		case 7:
 			if rapid.IntRange(0, 2).Draw(t, "relisten") == 0 {
@@ -346,6 +349,22 @@ func execC13(c C13Case, bound time.Duration) (facts map[string]int, err error) {
 				r.names = append(r.names, op.Name)
 				r.descs[op.Name] = op.Desc
 			}
+		case "bad-listen":
+			// a serving attempt that is refused (address without protocol, unknown protocol, empty path): the service is
+			// not listening afterwards, so registrations are accepted as before, and a later cycle is a full cycle
+			if r.listening {
+				continue
+			}
+			addr := op.Name
+			if berr := GuardBounded(fmt.Sprintf("Listen(%q)", addr), bound, func() error {
+				if e := svc.Listen(context.Background(), addr, 0); e == nil {
+					return fmt.Errorf("%sListen(%q) returned nil", pre, addr)
+				}
+				return nil
+			}); berr != nil {
+				return facts, berr
+			}
+			facts["refused-serving-attempt"]++
 		case "listen":
 			if r.listening {
 				continue
